@@ -56,10 +56,37 @@ def norm_root(expr):
     return _re.sub(r'^(this|arg\d+)(\._parameters)?\.', '*.', expr)
 
 
+def _div_quot(expr):
+    """`div(A,B).quot` / `std::div(A,B).quot` spelled as the division it is: `(A / B)`"""
+    out = expr
+    for _ in range(8):
+        i = out.find('div(')
+        if i < 0:
+            break
+        j = i + 4
+        depth, k, comma = 1, j, None
+        while k < len(out) and depth:
+            ch = out[k]
+            depth += ch == '('
+            depth -= ch == ')'
+            if ch == ',' and depth == 1:
+                comma = k
+            k += 1
+        if depth or comma is None or not out.startswith('.quot', k):
+            break
+        start = i - 5 if out[max(0, i - 5):i] == 'std::' else i
+        out = out[:start] + '(' + out[j:comma].strip() + ' / ' + out[comma + 1:k - 1].strip() + ')' + out[k + 5:]
+    return out
+
+
 def canon_expr(expr):
     """the same site whether its index is a counter, a cast counter or the element of a range-for"""
     import re as _re
-    return _re.sub(r'\((?:unsigned long|unsigned int|size_t|int|long)\)(?=\$v|local:)', '', expr or '')
+    out = _div_quot(_re.sub(r'\((?:unsigned long|unsigned int|size_t|int|long)\)(?=\$v|local:)', '', expr or ''))
+    m = _re.match(r'^(\d+<-value:)(.*)$', out)
+    if m and '|' in m.group(2):
+        out = m.group(1) + '|'.join(sorted(m.group(2).split('|')))       # the alternatives of a value, in one order
+    return out
 
 
 def same_value_read(kexpr, oexpr):
